@@ -9,6 +9,7 @@ import FcProofs.Lemmas.PyLiteC06
 import FcProofs.Lemmas.PyLiteC03
 import FcProofs.Lemmas.PyLiteC16
 import FcProofs.Lemmas.PyLiteC11Matching
+import FcProofs.Props.C12_Source
 namespace Fc.PyLite.Witness2
 open Fc Fc.PyLite
 
@@ -136,6 +137,13 @@ example : findMatches (fun (a b : Int) => a == b) [1, 2, 2, 3] [2, 3, 2, 4] = ‚ü
 -- a predicate that is not equality: first match by parity; `remove` takes the first EQUAL element (the matched one)
 example : Gen.c11FindMatchesSrc.run (eqExt fun a b => a % 2 == b % 2) [intList [1, 4, 6], intList [2, 3, 5], .str "eq"] =
     .ok (C11M.matchResultVal (.list [.list [.int 1, .int 3], .list [.int 4, .int 2]]) (intList [6]) (intList [5])) := rfl
+-- the hypotheses of `C11_source_find_matches` / `C12_source_find_matches` are satisfiable (integers, `==`)
+example (src ref : List Int) := C11_source_find_matches (fun (n : Int) => Val.int n) (fun (n : Int) => Val.int n)
+  (fun _ _ => rfl) (eqExt fun a b => a % 2 == b % 2) (.str "eq") (fun a b => a % 2 == b % 2) (fun _ _ => rfl)
+  (fun _ _ _ => rfl) src ref
+example (src ref : List Int) := C12_source_find_matches (fun (n : Int) => Val.int n) (fun _ _ => rfl)
+  (eqExt (¬∑ == ¬∑)) (.str "eq") (fun _ _ => rfl) (fun _ _ _ => rfl) src ref
+example : DirMode.findMatches [1, 2, 2, 3] [2, 3, 2, 4] = ‚ü®[2, 2, 3], [1], [4]‚ü© := rfl
 /-- mutant: the matched element is not removed (`orphans_target.remove(t)` dropped) -/
 def c11FindNoRemove : Fn := { Gen.c11FindMatchesSrc with body := [
     .assign "v3" (.tuple []),
